@@ -24,5 +24,5 @@ def check(rep, tier, replay=None):
 
     # with numerical differentiation the Jacobian handed to the solver comes from dr_numerical: a collapsing finite-difference step gives a zero
     # column and a false Ftol/Ptol far from the minimiser (rule L7; the executor lives in props/c08.py)
-    import c08
-    c08.check_p4(rep, A.index(fe.ast_dump("dr_numerical")), rule_id="L7", first_order_only=True)
+    import diffm
+    diffm.check_step_floor(rep, "L7")
